@@ -353,3 +353,58 @@ pub fn start_cpu_watchdog(budget_s: u64, on_stuck: impl Fn(&str, &str, &[u8], u6
         }
     });
 }
+
+// ---------------------------------------------------------------------------------------------
+// Dribble reader: legal short reads
+// ---------------------------------------------------------------------------------------------
+
+/// A `Read + Seek` that hands out at most a few bytes per `read` call (sizes cycle through a
+/// seed-derived pattern).  `Read::read` may legally return fewer bytes than asked for; a decoder
+/// that is correct only when every read is filled completely (`read` used where `read_exact` is
+/// meant) gives different results through this reader than through a slice.
+pub struct DribbleReader<R> {
+    inner: R,
+    pattern: [usize; 8],
+    at: usize,
+}
+
+impl<R> DribbleReader<R> {
+    pub fn new(inner: R, seed: u64) -> Self {
+        let mut pattern = [1usize; 8];
+        let mut x = seed | 1;
+        for p in pattern.iter_mut() {
+            x = x.wrapping_mul(6364136223846793005).wrapping_add(1442695040888963407);
+            *p = match (x >> 33) % 6 {
+                0 => 1,
+                1 => 2,
+                2 => 3,
+                3 => 7,
+                4 => 23,
+                _ => 45,
+            };
+        }
+        DribbleReader { inner, pattern, at: 0 }
+    }
+
+    /// Same type, but every read is passed through unchanged.
+    pub fn passthrough(inner: R) -> Self {
+        DribbleReader { inner, pattern: [usize::MAX; 8], at: 0 }
+    }
+}
+
+impl<R: Read> Read for DribbleReader<R> {
+    fn read(&mut self, buf: &mut [u8]) -> io::Result<usize> {
+        if buf.is_empty() {
+            return Ok(0);
+        }
+        let n = self.pattern[self.at % 8].min(buf.len());
+        self.at += 1;
+        self.inner.read(&mut buf[..n])
+    }
+}
+
+impl<R: Seek> Seek for DribbleReader<R> {
+    fn seek(&mut self, pos: SeekFrom) -> io::Result<u64> {
+        self.inner.seek(pos)
+    }
+}
